@@ -4,6 +4,7 @@ package main
 
 import (
 	"fmt"
+	"go/token"
 	"go/types"
 	"sort"
 	"strconv"
@@ -109,7 +110,14 @@ func (P *Prog) ivCheck() *ssa.Function {
 		undecidedf("anchor not found: Headers.UnmarshalFromRaw")
 	}
 	isCand := func(c *ssa.Function) bool {
-		return c != nil && P.inPkg(c) && len(c.Params) == 1 && errIndex(c) == 0 && c.Signature.Results().Len() == 1 && isNamed(deref(c.Params[0].Type()), cosePath, "Headers")
+		if c == nil || !P.inPkg(c) || errIndex(c) != 0 || c.Signature.Results().Len() != 1 {
+			return false
+		}
+		// check(h *Headers) or check(protected, unprotected)
+		if len(c.Params) == 1 && isNamed(deref(c.Params[0].Type()), cosePath, "Headers") {
+			return true
+		}
+		return len(c.Params) == 2 && isNamed(c.Params[0].Type(), cosePath, "ProtectedHeader") && isNamed(c.Params[1].Type(), cosePath, "UnprotectedHeader")
 	}
 	// the encoder-side callers' callees
 	encSide := map[*ssa.Function]bool{}
@@ -156,6 +164,21 @@ func (P *Prog) ivCheck() *ssa.Function {
 	}
 	undecidedf("anchor not found: cross-bucket IV check")
 	return nil
+}
+
+// ivOKs: the fact patterns "the cross-bucket IV check succeeded on the
+// Headers at pointer pattern H" for either calling convention of the check
+// (the buckets being the untouched fields, or the freshly decoded values).
+func ivOKs(iv *ssa.Function, H string) []string {
+	if len(iv.Params) == 2 {
+		dp := "mod(call<invoke:cbor.DecMode.Unmarshal>(%IM1, *" + H + ".RawProtected, iface<*ProtectedHeader>(" + H + ".Protected)), " + H + ").Protected"
+		du := "mod(call<invoke:cbor.DecMode.Unmarshal>(%IM2, *" + H + ".RawUnprotected, iface<*UnprotectedHeader>(" + H + ".Unprotected)), " + H + ").Unprotected"
+		return []string{
+			okp("call<" + shortFn(iv) + ">(*" + H + ".Protected, *" + H + ".Unprotected)"),
+			okp("call<" + shortFn(iv) + ">(" + dp + ", " + du + ")"),
+		}
+	}
+	return []string{okp("call<" + shortFn(iv) + ">(" + H + ")")}
 }
 
 func tagHead(tag int64) []byte {
@@ -656,6 +679,15 @@ func runC05(r *Report, tier string) {
 			nIV++
 			arg := ci.Common().Args[0]
 			root, path := P.terms.pointerRoot(arg)
+			if len(ivFn.Params) == 2 {
+				// check(h.Protected, h.Unprotected): the Headers are where the first bucket is loaded from
+				root, path = nil, nil
+				if u, ok := arg.(*ssa.UnOp); ok && u.Op == token.MUL {
+					if rr, pp := P.terms.addrPath(u.X); len(pp) > 0 && pp[len(pp)-1] == "Protected" {
+						root, path = rr, pp[:len(pp)-1]
+					}
+				}
+			}
 			if root == nil {
 				r.ob("R05.5", shortFn(f)+":iv-order", f, ci, "IV check sees the decoded buckets").fail("cannot resolve the Headers the IV check is applied to")
 				continue
@@ -726,11 +758,17 @@ func checkDecoderLayer(r *Report, rule, name string, st *recvWrite, W *types.Nam
 	V := st.val
 	ol := r.ob(rule, name+":layer", st.fn, st.at, "ok(decode RawProtected->Protected), ok(decode RawUnprotected->Unprotected), ok(IV check) hold for the Headers of the stored value")
 	layerFacts := func(fs factSet, H *Term) string {
-		miss, _ := fs.firstMissing([]factPat{
-			fp(okp("call<invoke:cbor.DecMode.Unmarshal>(%M1, *%H.RawProtected, iface<*ProtectedHeader>(%H.Protected))")),
-			fp(okp("call<invoke:cbor.DecMode.Unmarshal>(%M2, *%H.RawUnprotected, iface<*UnprotectedHeader>(%H.Unprotected))")),
-			fp(okp("call<" + shortFn(ivFn) + ">(%H)")),
-		}, bindings{"H": H})
+		miss := ""
+		for _, ivp := range ivOKs(ivFn, "%H") {
+			miss, _ = fs.firstMissing([]factPat{
+				fp(okp("call<invoke:cbor.DecMode.Unmarshal>(%M1, *%H.RawProtected, iface<*ProtectedHeader>(%H.Protected))")),
+				fp(okp("call<invoke:cbor.DecMode.Unmarshal>(%M2, *%H.RawUnprotected, iface<*UnprotectedHeader>(%H.Unprotected))")),
+				fp(ivp),
+			}, bindings{"H": H})
+			if miss == "" {
+				return ""
+			}
+		}
 		return miss
 	}
 	HV := projectField(V, "Headers")
